@@ -98,6 +98,12 @@ static void tlwe_part(int k, bool thorough) {
                     for (int j = 0; j < N; j++) { mm[j] = rep == 0 ? (int32_t) (j % M) : (int32_t) rng.below(M); msg->coefsT[j] = modSwitchToTorus32(mm[j], M); }
                     VH_OP("tLweSymEncrypt/Decrypt:k=%d:M=%d", k, M);
                     tLweSymEncrypt(c, msg, alpha, K);
+                    { // the library's phase is the exact phase up to the FFT rounding of k products with a binary key; the approximation rounds it coefficient-wise
+                        std::vector<U> ex; ref_tlwe_phase(ex, c, K->key, N, k); TorusPolynomial *lp = new_TorusPolynomial(N), *ap = new_TorusPolynomial(N);
+                        tLwePhase(lp, c, K); tLweApproxPhase(ap, lp, M, N); out.evaluations++;
+                        for (int j = 0; j < N; j++) { int32_t d = (int32_t) ((U) lp->coefsT[j] - ex[j]); if (d > 2 * k || d < -2 * k) { out.viol("decrypt:tLwePhase-inexact", J().i("k", k).i("coef", j).i("diff_units", d)); break; }
+                            if (ap->coefsT[j] != approxPhase(lp->coefsT[j], M)) { out.viol("decrypt:tLweApproxPhase", J().i("k", k).i("Msize", M).i("coef", j)); break; } }
+                        delete_TorusPolynomial(lp); delete_TorusPolynomial(ap); }
                     tLweSymDecrypt(dec, c, K, M);
                     out.evaluations++;
                     for (int j = 0; j < N; j++) if (dec->coefsT[j] != msg->coefsT[j]) {
